@@ -66,7 +66,8 @@ def gen_hits(base, other, nt):
 def replay(recipe):
     if recipe.get('gen') == 'G-det-runsim':
         solo = sub(dict(kind='runsim', params=recipe['params']), 3)
-        after = sub(dict(kind='runsim', params=recipe['params'], before=recipe['before']), 6)
+        after = sub(dict(kind='runsim', params=recipe['params'], before=recipe['before'],
+                         via_defaults=recipe.get('via_defaults', False)), 6)
         return None, ([] if solo == after else [dict(desc='run_simulator statistics depend on earlier simulations in the process',
                                                       signature='nondeterminism', recipe=recipe, gen='G-det-runsim')])
     if recipe.get('gen') == 'G-det-gen':
@@ -154,13 +155,26 @@ def run(ctx):
                     query_prob=0.4, interactive_prob=0.3, batch_prob=0.3)
         others = [dict(base, ticks_per_second=rng.choice([t for t in (10, 50, 100, 200) if t != tps]), duration=10),
                   dict(base, scheduler_algo='naive', random_seed=base['random_seed'] + 1, duration=10)]
+        via = i % 2 == 1
+        if via:
+            # the run under test leaves most keys to the documented defaults; the other runs are configured by adjusting
+            # the dict get_param_defaults() returns (as the README and the tests do)
+            groups = [['waiting_seconds_mean'], ['num_pipelines'], ['num_operators'], ['random_seed'], ['cpus_per_pool'],
+                      ['ram_gb_per_pool'], ['query_prob', 'interactive_prob', 'batch_prob']]
+            for k in [k for g in rng.sample(groups, 5) for k in g]:
+                base.pop(k, None)
+                for o in others:
+                    o.pop(k, None)
+            others[0].update(random_seed=rng.randrange(1000), waiting_seconds_mean=0.5, num_pipelines=7)
+            others[1].update(num_pools=1, cpus_per_pool=3, ram_gb_per_pool=5, interactive_prob=0.6, query_prob=0.1,
+                             batch_prob=0.3, num_operators=6)
         solo = sub(dict(kind='runsim', params=base), 3)
-        after = sub(dict(kind='runsim', params=base, before=others), 6)
+        after = sub(dict(kind='runsim', params=base, before=others, via_defaults=via), 6)
         if solo != after:
             diff = sorted(k for k in solo if solo.get(k) != after.get(k))
             return [dict(desc=f'run_simulator with {base} returns different statistics ({", ".join(diff[:4])}) after other '
                               f'simulations (tick rates {[o["ticks_per_second"] for o in others]}) ran in the same process',
-                         signature='nondeterminism', recipe=dict(gen='G-det-runsim', params=base, before=others), gen='G-det-runsim')]
+                         signature='nondeterminism', recipe=dict(gen='G-det-runsim', params=base, before=others, via_defaults=via), gen='G-det-runsim')]
         return []
     with ThreadPoolExecutor(8) as ex:
         for h in ex.map(runsim_check, range(ctx.budget(6, 60))):
